@@ -148,7 +148,11 @@ def table(F: Facts) -> Dict[str, Entry]:
     out: Dict[str, Entry] = {}
     display = vals[0] if len(vals) == 1 and isinstance(vals[0], ast.Dict) else None
     if display is not None and display.keys:
-        _from_display(F, m, display, out)
+        try:
+            _from_display(F, m, display, out)
+        except AnalysisError:
+            # parts of the table are filled while the module is imported (registries merged with **): run the module body
+            out = _from_execution(F, m)
     else:
         out = _from_execution(F, m)
     if not out:
